@@ -12,7 +12,7 @@ from pathlib import Path
 from vf import core, runner
 from props import linklib as L
 
-LEVEL = "partial"
+LEVEL = "other"
 prebuild = L.prebuild
 
 
@@ -219,7 +219,7 @@ def run(ck):
         mexe = None
         ck.fail("correspondence", "model-build", "extracted model does not build: " + str(e)[:300], {"theorem": "extraction"})
     scripts, meta, infos = [], {}, {}
-    ncfg = 10 if quick else 80
+    ncfg = 10 if quick else 40
     for ci in range(ncfg):
         mode = "bal" if ci % 2 == 0 else "unb"
         al = 1 + (ci // 2) % 2
